@@ -4,6 +4,7 @@
 #   usb2_crc5   USBTokenDetector._generate_crc_for_token           all 2^11 inputs
 #   usb2_token  the real USBTokenDetector, fed over UTMI            all 2^16 (byte1, byte2) per PID: accepted <=> CRC5 ok
 #   usb2_crc16  USBDataPacketCRC (rx and tx byte paths)             all 2^16 states x bytes (thorough: all 2^24)
+#   usb2_data   the real USBDataPacketReceiver (standalone)         all 2^16 check fields per payload: complete <=> CRC16 ok
 #   usb3_crc5   compute_usb_crc5                                    all 2^11 inputs
 #   usb3_crc16  HeaderPacketCRC                                     2^16 x 2^32 via affinity (see below)
 #   usb3_crc32  DataPacketPayloadCRC word / 3B / 2B / 1B advances   2^32 x 2^32 via affinity
@@ -564,15 +565,83 @@ def run_token(cfg, tier, seed):
                                    "acceptance = new_token / new_frame strobe within 4 cycles after the end of the packet"])
 
 
+# ---- the real data-packet receiver: packet_complete exactly when the CRC16 field is right
+def build_datarx():
+    from luna.gateware.usb.usb2.packet import USBDataPacketReceiver
+    from luna.gateware.interface.utmi import UTMIInterface
+    u = UTMIInterface()
+    d = USBDataPacketReceiver(utmi=u, standalone=True)
+    return Design(d, dict(rx_data=u.rx_data, rx_valid=u.rx_valid, rx_active=u.rx_active),
+                  dict(packet_complete=d.packet_complete, crc_mismatch=d.crc_mismatch))
+
+
+PAYLOADS = dict(zlp=[], one=[0xA5], two=[0x12, 0xEF], sample=[0x00, 0x05, 0x08, 0x00, 0x00, 0x00, 0x00, 0x00])
+
+
+def datarx_prefix(model, payload, log=None):
+    cur = Cursor(model, None, log)
+    cur.step(); cur.step()
+    cur.step(rx_active=1)
+    cur.step(rx_active=1, rx_valid=1, rx_data=0xC3)            # DATA0
+    for b in payload: cur.step(rx_active=1, rx_valid=1, rx_data=b)
+    return cur
+
+
+def datarx_case(model, st, payload, lo, hi, log=None):
+    cur = Cursor(model, st, log)
+    cur.step(rx_active=1, rx_valid=1, rx_data=lo)
+    cur.step(rx_active=1, rx_valid=1, rx_data=hi)
+    cur.step(rx_active=1)
+    complete = mismatch = False
+    for _ in range(4):
+        o = cur.step()
+        complete |= bool(o.packet_complete); mismatch |= bool(o.crc_mismatch)
+    good = crc_of_bytes("usb2_crc16", payload) == (lo | (hi << 8))
+    det = dict(payload=[hex(b) for b in payload], crc_bytes=[hex(lo), hex(hi)], expected_crc16=hex(crc_of_bytes("usb2_crc16", payload)),
+               packet_complete=complete, crc_mismatch=mismatch)
+    if complete and not good: return ("usb2-data:accepted-bad-crc16", det), complete
+    if good and not complete: return ("usb2-data:rejected-good-crc16", det), complete
+    return None, complete
+
+
+def run_datarx(cfg, tier, seed):
+    calibrate()
+    payload = PAYLOADS[cfg["payload"]]
+    model = Model(build_datarx)
+    run = Run(cfg, model)
+    pre = datarx_prefix(model, payload)
+    for hi in range(256):
+        for lo in range(256):
+            fail, acc = datarx_case(model, pre.state, payload, lo, hi)
+            run.evals += 1
+            run.cover["accepted" if acc else "rejected"] += 1
+            if fail: run.violation(fail[0], fail[1], [dict(dut="usb2_data", payload=cfg["payload"], lo=lo, hi=hi)])
+    run.states.add(pre.state)
+    good = crc_of_bytes("usb2_crc16", payload)
+    picks = [(good & 0xFF, good >> 8), (good >> 8, good & 0xFF), ((seed * 37 + 1) & 0xFF, (seed * 91 + 7) & 0xFF), ((good ^ 1) & 0xFF, good >> 8)]
+    picks += [(v["path"][0]["lo"], v["path"][0]["hi"]) for v in run.viol.values()]
+    for lo, hi in picks:
+        log = []
+        c = datarx_prefix(model, payload, log)
+        datarx_case(model, c.state, payload, lo, hi, log)
+        run.validate(model, log)
+    run.samples.append([dict(payload=cfg["payload"], crc=hex(good))])
+    return run.result(goals=["accepted", "rejected"], depth=len(payload) + 11,
+                      assumptions=["data packets arrive over UTMI as PID, payload, two CRC bytes (low byte first), then rx_active falls; one byte per cycle",
+                                   "acceptance = packet_complete strobe within 4 cycles after the end of the packet"])
+
+
 # ===================================================================================== engine interface
 def configs(tier):
     c = [dict(dut="usb2_crc5"), dict(dut="usb3_crc5"),
          dict(dut="usb2_token", pid="OUT"), dict(dut="usb2_token", pid="SOF"),
+         dict(dut="usb2_data", payload="zlp"), dict(dut="usb2_data", payload="sample"),
          dict(dut="usb2_crc16", mode="rx"), dict(dut="usb2_crc16", mode="tx"),
          dict(dut="usb3_crc16", mode="word"),
          dict(dut="usb3_crc32", mode="word"), dict(dut="usb3_crc32", mode="b3"), dict(dut="usb3_crc32", mode="b2"), dict(dut="usb3_crc32", mode="b1")]
     if tier == "thorough":
         c += [dict(dut="usb2_token", pid=p) for p in ("IN", "SETUP", "PING")]
+        c += [dict(dut="usb2_data", payload=p) for p in ("one", "two")]
         # the complete 2^16 x 2^8 table of the USB2 CRC16, both byte paths
         allbytes = list(range(256))
         for mode in ("rx", "tx"):
@@ -584,6 +653,7 @@ def configs(tier):
 def run_config(cfg, tier, seed):
     if cfg["dut"] in ("usb2_crc5", "usb3_crc5"): return run_crc5(cfg, tier, seed)
     if cfg["dut"] == "usb2_token": return run_token(cfg, tier, seed)
+    if cfg["dut"] == "usb2_data": return run_datarx(cfg, tier, seed)
     return run_regcrc(cfg, tier, seed)
 
 
@@ -606,6 +676,13 @@ def replay(cfg, tier, payload):
         fail, acc = token_case(model, c.state, p["pid"], p["b1"], p["b2"], log)
         n = pysim.replay(model, log)
         return fail is None, f"{fail or 'token handled as specified'} [{n} cycles identical in amaranth.sim]"
+    if kind == "usb2_data":
+        model = Model(build_datarx)
+        log = []
+        c = datarx_prefix(model, PAYLOADS[p["payload"]], log)
+        fail, acc = datarx_case(model, c.state, PAYLOADS[p["payload"]], p["lo"], p["hi"], log)
+        n = pysim.replay(model, log)
+        return fail is None, f"{fail or 'data packet handled as specified'} [{n} cycles identical in amaranth.sim]"
     dut = RegCRC(kind)
     if "history" in p:
         strobe, port, nbits, early = dut.modes[p["mode"]]
